@@ -2455,6 +2455,12 @@ def _tls_initial(e,run,keyname):
     def has_const(n): return [b for b in e.bodies if b.kind=='const' and b.name.endswith(n.split('::')[-1]+'::__RUST_STD_INTERNAL_INIT')]
     c=has_const(keyname)
     if c: return e.eval_const(run,c[0])
+    # the dump may print the initialiser constant without its owner: it is then the first such constant after the key itself
+    bl=list(e.bodies); ki=[i for i,b in enumerate(bl) if b.kind=='const' and b.name==keyname]
+    if ki:
+        for b in bl[ki[0]+1:]:
+            if b.kind=='const' and re.search(r':\s*(std::thread::)?LocalKey<',getattr(b,'header','') or ''): break
+            if b.kind=='const' and b.name.split('::')[-1]=='__RUST_STD_INTERNAL_INIT': return e.eval_const(run,b)
     keys=[b.name for b in e.bodies if b.kind=='const' and re.search(r':\s*(std::thread::)?LocalKey<',getattr(b,'header','') or '') and not has_const(b.name)]
     inits=[b for b in e.bodies if b.kind=='fn' and b.name.split('::')[-1]=='__rust_std_internal_init_fn']
     if keyname not in keys or len(inits)!=len(keys): raise Unsupported('thread_local initialiser of '+keyname)
@@ -2478,8 +2484,21 @@ def m_cell_replace(e,run,a,f):
 def m_cell_take(e,run,a,f): raise Unsupported('Cell::take')
 def m_into_inner(e,run,a,f):
     d=deref(a[0]); return ok(d.f[0]) if d.ty in ('Mutex','RwLock') else d.f[0]
+def m_range_contains(e,run,a,f):
+    r=deref(a[0]); x=deref(a[1])
+    if not (isinstance(r,Agg) and isinstance(x,Int)): raise Unsupported('Range::contains on '+repr(r)[:60])
+    lo=lambda: e.binop('Ge',x,deref(r.f[0])); 
+    if r.ty=='Range': return b_and(lo(),e.binop('Lt',x,deref(r.f[1])))
+    if r.ty=='RangeInclusive': return b_and(lo(),e.binop('Le',x,deref(r.f[1])))
+    if r.ty=='RangeFrom': return lo()
+    if r.ty=='RangeTo': return e.binop('Lt',x,deref(r.f[0]))
+    if r.ty=='RangeToInclusive': return e.binop('Le',x,deref(r.f[0]))
+    raise Unsupported('contains on '+r.ty)
 def register_misc23(E):
     M=E.model
+    M(r'^(std::ops::)?RangeInclusive::new$',lambda e,run,a,f: Agg('RangeInclusive',[a[0],a[1],Bool(False)]))
+    M(r'^(std::ops::)?RangeInclusive::(start|end)$',lambda e,run,a,f: Ref(deref(a[0]),0 if f.endswith('start') else 1))
+    M(r'^(std::ops::)?(Range|RangeInclusive|RangeFrom|RangeTo|RangeToInclusive)::contains$',m_range_contains)
     M(r'^(std::thread::)?LocalKey::with$',m_localkey_with); M(r'^(std::thread::)?LocalKey::try_with$',m_localkey_try_with)
     M(r'^(std::cell::)?RefCell::new$',m_wrap_new('RefCell')); M(r'^(std::cell::)?RefCell::(borrow|borrow_mut|get_mut|as_ptr)$',m_inner_ref)
     M(r'^(std::cell::)?Cell::new$',m_wrap_new('Cell')); M(r'^(std::cell::)?Cell::get$',m_cell_get); M(r'^(std::cell::)?Cell::set$',m_cell_set); M(r'^(std::cell::)?Cell::replace$',m_cell_replace)
